@@ -659,6 +659,159 @@ def _compare(ctx, case, impl, model_line, stats=None):
     return None
 
 
+# ---- upper layers (Model/CacheTop.lean): the real call sequences, log-lambda, ns-gradient, second-derivative number
+
+_SIZE = {0: 6, 1: 6, 2: 9, 3: 1}
+
+
+def top_ops(case, rng=None):
+    """the history as the sequence of *real calls* (T d = tdm.initialize_trial, L = initialize_for_new_trial cascade,
+    C s = change_shg_mgr, E, G).  With `rng` and a trial data manager without data fields one cascade call may be dropped
+    or moved in front of its initialize_trial (equal-size data only): the documented order is then violated on purpose and
+    the model has to predict the resulting *stale* numbers."""
+    d = case['d0']
+    lops = []
+    for op in list(case['ops']) + ([['E'] + list(case['final'][1:])] if case['final'][0] in ('eval', 'eval_grad2') else []) \
+            + ([['G', case['final'][1]]] if case['final'][0] in ('eval_grad2', 'grad2raw') else []):
+        if op[0] in ('I', 'M', 'R'):
+            nd = op[1] if op[0] != 'R' else d
+            lops += [['T', nd, _SIZE[nd] == _SIZE[d]], ['L']]
+            d = nd
+        elif op[0] == 'S':
+            lops += [['C', op[1]], ['T', d, True], ['L']]
+        elif op[0] == 'E':
+            lops.append(['E', op[1], op[2]])
+        elif op[0] == 'G':
+            lops.append(['G', op[1]])
+    broke = False
+    if rng is not None and case['spec']['fields'] == 'none':
+        idx = [i for i, o in enumerate(lops) if o[0] == 'T' and o[2] and i + 1 < len(lops) and lops[i + 1][0] == 'L'
+               and any(x[0] == 'E' for x in lops[i + 2:])]
+        if idx and rng.random() < 0.5:
+            i = rng.choice(idx)
+            if rng.random() < 0.5:
+                del lops[i + 1]                       # cascade forgotten
+            else:
+                lops[i], lops[i + 1] = lops[i + 1], lops[i]     # cascade before the new trial data
+            broke = True
+    return [o[:2] if o[0] == 'T' else o for o in lops], broke
+
+
+def run_top(spec, d0, s0, lops):
+    cf = _cf()
+    try:
+        G = cf.build(spec, d0, s0)
+    except Exception as e:  # noqa
+        raise MachineryError('C06 fixture: cannot build the object graph %r: %s: %s' % (spec, type(e).__name__, e))
+    ns_idx = G.pmm.get_gflp_idx('ns')
+    res = []
+    for op in lops:
+        try:
+            if op[0] == 'T':
+                cf.op_tdm_init(G, op[1])
+                res.append('U')
+            elif op[0] == 'L':
+                cf.op_llh_init(G)
+                res.append('U')
+            elif op[0] == 'C':
+                cf.op_change_shg(G, op[1])
+                res.append('U')
+            elif op[0] == 'E':
+                r = cf.op_evaluate(G, op[1], op[2])
+                res.append({'llh': r['llh'], 'gradNs': r['grads'][ns_idx], 'ratio': r['ratio'], 'grad': r['grad']})
+            elif op[0] == 'G':
+                res.append(cf.op_grad2(G, op[1]))
+        except Exception as e:  # noqa
+            res.append('EXC:%s: %s' % (type(e).__name__, str(e)[:120]))
+    return res
+
+
+def _top_request(case, lops, variant):
+    """driver line of the upper-layer model: world tokens of `_request` + event counts, a_k table, one_plus_alpha"""
+    cf = _cf()
+    spec = case['spec']
+    # a synthetic fused case that mentions every data set / source set / point of the call sequence
+    ops, d, s = [], case['d0'], case['s0']
+    for op in lops:
+        if op[0] == 'T':
+            ops.append(['I', op[1]])
+        elif op[0] == 'C':
+            ops.append(['S', op[1]])
+        elif op[0] == 'E':
+            ops.append(['E', op[1], op[2]])
+    w = _request(dict(case, ops=ops, final=['maximize']), variant).split(' ')
+    ss = sorted({case['s0']} | {op[1] for op in lops if op[0] == 'C'})
+    ak = ['%d:%s:%s' % (s_, flist(op[2]), flist(cf.ak_of(spec, s_, op[2]))) for s_ in ss for op in lops if op[0] == 'E']
+    toks = []
+    for op in lops:
+        if op[0] == 'T':
+            toks.append('T%d' % op[1])
+        elif op[0] == 'L':
+            toks.append('L')
+        elif op[0] == 'C':
+            toks.append('C%d' % op[1])
+        elif op[0] == 'E':
+            toks.append('E%s|%s|%s' % (f2b(op[1]), flist(op[2]), flist(_keys(_grid_only(spec), spec, op[2]))))
+        elif op[0] == 'G':
+            toks.append('G' + f2b(op[1]))
+    nev = ';'.join('%d:%d' % (d_, n) for d_, n in sorted(cf.N_OF.items()))
+    return 'top %s %s %s %s %s %s' % (' '.join(w[1:9]), nev, ';'.join(sorted(set(ak))) or '-', f2b(cf.one_plus_alpha()),
+                                      ' '.join(w[9:11]), ';'.join(toks) or '-')
+
+
+def _closeS(a, b, scale=0.0):
+    return abs(a - b) <= 1e-9 * (abs(a) + abs(b) + scale) + 1e-300 or (a != a and b != b)
+
+
+def _top_compare(case, lops, impl, model_line, stats=None):
+    if model_line in ('bad-op', 'bad-ops'):
+        raise MachineryError('C06 driver rejected the top request: ' + model_line)
+    for i, (op, r, m) in enumerate(zip(lops, impl, model_line.split(';'))):
+        raised = isinstance(r, str) and r.startswith('EXC:')
+        if op[0] in ('T', 'L', 'C'):
+            if raised or m != 'U':
+                return 'call %d %s: implementation %s, model %s' % (i, op, _short(r), m)
+        elif op[0] == 'E':
+            if (m == 'XERR') != raised:
+                return 'call %d %s: implementation %s, model %s' % (i, op, _short(r)[:120], m[:60])
+            if raised:
+                continue
+            (_, llh, gns, rb, gb) = m.split(':')
+            mr, mg = _blocks(rb), _blocks(gb)
+            for name, a, b in (('ratio', r['ratio'], mr), ('gradient', r['grad'], mg)):
+                if [len(x) for x in a] != [len(y) for y in b]:
+                    return 'call %d %s: %s shapes differ: implementation %s, model %s' % (i, op, name, _short(a), _short(b))
+                for k, (x, y) in enumerate(zip(a, b)):
+                    for j, (u, v_) in enumerate(zip(x, y)):
+                        if not _close(u, v_):
+                            return 'call %d %s: PDF-ratio %s of source %d, event %d: implementation %r, model %r' % (i, op, name, k, j, u, v_)
+            n_ev = sum(len(x) for x in r['ratio'][:1]) or 1
+            for name, u, v_ in (('log-lambda', r['llh'], parse_flist(llh)[0]), ('d log-lambda / d ns', r['gradNs'], parse_flist(gns)[0])):
+                if stats is not None:
+                    stats['top_numbers'] = stats.get('top_numbers', 0) + 1
+                if not _closeS(u, v_, scale=1e-3 * n_ev):
+                    return 'call %d %s: %s: implementation %r, model %r' % (i, op, name, u, v_)
+        elif op[0] == 'G':
+            if raised:
+                return 'call %d %s: implementation raised %s, model %s' % (i, op, r, m)
+            if (m == 'REF') != (r == 'ERR'):
+                return 'call %d %s: second derivative: implementation %s, model %s' % (i, op, _short(r), m)
+            if m != 'REF':
+                if stats is not None:
+                    stats['top_numbers'] = stats.get('top_numbers', 0) + 1
+                if not _closeS(r, parse_flist(m.split(':')[1])[0]):
+                    return 'call %d %s: second derivative: implementation %r, model %r' % (i, op, r, parse_flist(m.split(':')[1])[0])
+    return None
+
+
+def o_top_corr(ctx, tcase):
+    """replay of an upper-layer correspondence case: {case, lops}"""
+    variant = extract_variant()
+    impl = run_top(tcase['case']['spec'], tcase['case']['d0'], tcase['case']['s0'], tcase['lops'])
+    model = ctx.driver('C06', [_top_request(tcase['case'], tcase['lops'], variant)])[0]
+    return _top_compare(tcase['case'], tcase['lops'], impl, model)
+
+
 def o_corr(ctx, case):
     variant = extract_variant()
     (impl, _) = run_history(case['spec'], case['d0'], case['s0'],
@@ -786,7 +939,8 @@ def shrink_field(ctx, fcase):
 
 ORACLES = {'fresh_vs_used': o_fresh_vs_used, 'cache_onoff': o_cache_onoff, 'corr': o_corr,
            'field_fresh_vs_used': o_field_fresh_vs_used, 'field_corr': o_field_corr,
-           'cache_snapshot': o_cache_snapshot, 'trace_fresh': o_trace_fresh, 'repeat_final': o_repeat_final}
+           'cache_snapshot': o_cache_snapshot, 'trace_fresh': o_trace_fresh, 'repeat_final': o_repeat_final,
+           'top_corr': o_top_corr}
 
 
 # --------------------------------------------------------------------------------------------------
@@ -900,6 +1054,12 @@ def probe_cases(spec, i):
         out.append(dict(spec=sp, d0=2, s0=0, ops=[['E', 2.5, q], ['H', 2.5]], final=['grad2multi_raw', 0.7]))
     if spec.get('graph') == 'i3':
         return out
+    if spec.get('scale') == 'mjd':
+        # MJD-sized parameter values matter for the grid-key logic only: keep the new-trial probe and the probes that move
+        # between grid cells / onto a grid point; the identity / error-path / option probes run on the small-valued twin
+        keep = [c for c in out if all(o[0] in ('E', 'I') for o in c['ops']) and c['final'][0] in ('eval', 'eval_grad2')]
+        out = keep + [dict(spec=sp, d0=2, s0=1, ops=[['E', 2.5, p], ['E', 2.5, q]], final=['eval', 2.5, p])] \
+            if not any(len(c['ops']) == 2 and c['ops'][1][0] == 'E' for c in keep) else keep
     # option interactions are spread over the probes: every probe draws its own (norm factor function, second dataset,
     # detector-yield dependence, product position) from a generator seeded by (configuration, probe) alone
     import random
@@ -1093,7 +1253,7 @@ def run(ctx):
         for name in ('fresh_vs_used', 'cache_onoff', 'cache_snapshot', 'trace_fresh', 'repeat_final'):
             if name == 'repeat_final' and case['final'][0] == 'eval':
                 continue            # evaluate twice in a row is clause (3) of cache_snapshot
-            if name == 'cache_onoff' and (case['spec'].get('graph') == 'i3' or not (is_w or ctx.rng.random() < 0.3)):
+            if name == 'cache_onoff' and (case['spec'].get('graph') == 'i3' or not (is_w or ctx.rng.random() < 0.25)):
                 continue
             if name == 'trace_fresh' and (case['spec'].get('graph') != 'i3' or not any(op[0] == 'E' for op in case['ops'])):
                 continue
@@ -1141,6 +1301,51 @@ def run(ctx):
                           relation='values 1e-9 relative; hit/miss counts and grad2 provenance exact',
                           impl_output=_short(impl), model_output=m[:300], signature='C06/corr/' + _corr_mode(d),
                           no_failing_input=True)
+    # ---- upper layers: real call sequences vs Model/CacheTop.lean (complete sequences, and deliberately broken ones)
+    tcases = []
+    for case, is_w in cases:
+        if case['final'][0] in ('maximize', 'grad2multi_raw') or ctx.rng.random() >= ctx.n(0.18, 0.5):
+            continue
+        case = dict(case, spec=dict(case['spec'], J=1, product=None))     # the modelled upper layers: one dataset, no product
+        (lops, broke) = top_ops(case, ctx.rng)
+        if lops:
+            tcases.append((case, lops, broke))
+    # directed: the documented call order violated (trial data managers without data fields, equal-size data sets)
+    for i, sp in enumerate(specs):
+        if sp['fields'] != 'none':
+            continue
+        pts = points(sp)
+        p = [pts['p']] * sp['K']
+        c = dict(spec=dict(sp, J=1, product=None, dY=(i % 2 == 1), norm=(i % 4 >= 2)), d0=0, s0=0, ops=[], final=['maximize'])
+        tcases.append((c, [['E', 2.5, p], ['T', 1], ['E', 2.5, p], ['G', 2.5]], True))                 # cascade forgotten
+        tcases.append((c, [['T', 1], ['E', 0.7, p], ['L'], ['E', 0.7, p], ['G', 0.7]], True))          # cascade too late
+        if i % 2 == 0:
+            tcases.append((c, [['E', 2.5, p], ['L'], ['T', 1], ['E', 2.5, p], ['C', 1], ['E', 2.5, p]], True))   # cascade too early
+    timpl = [run_top(c['spec'], c['d0'], c['s0'], lops) for c, lops, _ in tcases]
+    tmodel = ctx.driver('C06', [_top_request(c, lops, variant) for c, lops, _ in tcases])
+    t_seen = set()
+    for (c, lops, broke), i, m in zip(tcases, timpl, tmodel):
+        ctx.case(key=('top', c['spec'], c['d0'], c['s0'], lops), desc=None)
+        ctx.count('top:' + ('call order violated on purpose' if broke else 'complete call sequences'))
+        for o in lops:
+            ctx.count('top:call ' + o[0])
+        d = _top_compare(c, lops, i, m, stats)
+        if d:
+            suspicious.append((c, i, m, d))
+            mode = 'broken-order' if broke else ('number' if ('log-lambda' in d or 'second derivative' in d) else 'values')
+            if mode not in t_seen:
+                t_seen.add(mode)
+                # a disagreement on a complete sequence is first handed to the fresh-vs-used oracle of the fused history
+                res = None if broke else o_fresh_vs_used(ctx, c)
+                if res:
+                    ctx.violation('fresh_vs_used', c, res, signature=classify('fresh_vs_used', c, res), kind='history')
+                else:
+                    ctx.violation('top_corr', {'case': c, 'lops': lops}, 'upper-layer model and implementation disagree (%s)%s' % (
+                        d, ' on a call sequence that violates the documented order (the model mirrors the code as it is)' if broke else
+                        ' but no property oracle fails on this history'), kind='correspondence',
+                        relation='log-lambda, ns-gradient, second-derivative number 1e-9 relative; ratios 1e-9; raised/refused exact',
+                        impl_output=_short(i), model_output=m[:300], signature='C06/top_corr/' + mode, no_failing_input=True)
+    ctx.extra['top_numbers_compared'] = stats.get('top_numbers', 0)
     # ---- data fields depending on global fit parameters (TrialDataManager level)
     reset = extract_variant(ctx, with_fields=True)[4]
     ctx.extra['source_facts']['resetFields'] = reset
